@@ -4,7 +4,7 @@ import casadi as ca
 import mpmath as mp
 import z3
 
-from ..harness import Harness, Claim, HarnessError
+from ..harness import Harness, Claim, HarnessError, StructureChanged
 from ..val import Val
 from .. import val as V
 from ..enc import Ctx
@@ -94,7 +94,7 @@ class DExp(Harness):
                 with MatrixCut(("SE23",)) as mc:
                     E = alg.elem(xx).exp(G)
                 if len(mc.calls) != 1 or not ca.is_equal(E.param, mc.calls[0][2], 2):
-                    raise HarnessError("exp does not end in a single from_Matrix call")
+                    raise StructureChanged("exp does not end in a single from_Matrix call")
                 return mc.calls[0][1]
             return ca.SX(alg.elem(xx).exp(G).to_Matrix())
         M = expM(x)
